@@ -1,15 +1,17 @@
 import Pyrealb.Lemmas.Lemmatize
+import Pyrealb.Lemmas.LemmatizeDecl
 /-! # C18 — the lemmatization map is sound and complete with respect to realization
 
 Property theorems only.  `Model/Lemmatize` mirrors `lemmatize.py` (`genExp`, `expandConjugation`,
 `expandDeclension`, the per-entry body of `buildLemmataMap`); an expression is realized by the models of C01
 (`ConjEn/ConjFr.realize`) and C02 (`Decl.realize`).
 
-* unbounded (every table, lemma, lexicon entry satisfying the stated decidable hypotheses):
-  `expandConj_sound_en`, `expandConj_sound_fr`, `expandConj_sound_refl`, `expandConj_complete` (refuted / partial),
-  `intr_veto`;
+* unbounded (every table, lemma, lexicon entry satisfying the stated decidable hypotheses, which the driver
+  evaluates on every real lexicon entry on every run): `expandConj_sound_en`, `expandConj_sound_fr`,
+  `expandConj_sound_refl`, `expandConj_refl_text`, `expandConj_complete` (refuted / partial), `intr_veto`,
+  `expandDecl_sound` (nouns, adjectives, adverbs), `expandDecl_complete`;
 * finite, `decide +kernel` over the complete generated tables, re-proved whenever /repo changes:
-  `conj_wf_tbl`. -/
+  `conj_wf_tbl`, `distinct_rows_tbl` (+ `distinct_rows_all`: its reading as a ∀), `closed_class_tbl`. -/
 namespace Pyrealb.C18
 open Pyrealb Pyrealb.Lemmatize
 
@@ -200,16 +202,121 @@ theorem intr_veto_holds : intr_veto := by
   simp only [htab, h.tab, hhas, if_true, hrow, Conj.Row.at, hcell, hv]
   rfl
 
+/-! ## declension: soundness (open classes N, A, Adv) -/
+
+/-- **C18.f** for every declension table, lemma and lexicon entry of a noun, adjective or adverb: when the lemma
+    ends with the table's ending, the freshly constructed terminal is as `ctorOK` says (table, stem, `g`/`n` it
+    carries = `c`; evaluated by the driver on every real entry) and the table's rows are distinguishable by the
+    options `genExp` infers (`DistinctRows`: for each listed row, `bestMatch` on the request built from those options
+    selects that row's `val`, and no veto of the realizer applies), every (form, expression) pair of
+    `expandDeclension` realizes to exactly that form, without a warning -/
+def expandDecl_sound : Prop :=
+  ∀ (env : Env) (lex : Decl.Lex) (verb : Option Conj.Verb) (pos : Decl.Pos) (lemma name : Str) (tb : Decl.Table)
+    (entry : Decl.PosEntry) (c : Ctor) (l : List Pair),
+    (pos = .N ∨ pos = .A ∨ pos = .Adv) →
+    Pyrealb.lookup name env.decl = some tb → Pyrealb.endsWith lemma tb.ending = true → noLeadSpace lemma = true →
+    ctorOK env.decl lex env.lang pos lemma name (Pyrealb.dropRight lemma tb.ending.length) entry c = true →
+    DistinctRows env.lang pos name tb c = true →
+    expandDeclension env.lang env.decl lemma pos.name (.str name) entry = .ok l →
+    ∀ p ∈ l, realizeExp env lex verb p.2 = .ok (p.1, 0)
+
+theorem expandDecl_sound_holds : expandDecl_sound := by
+  intro env lex verb pos lemma name tb entry c l hcls htb hend hsp hctor hd hl
+  exact expandDecl_core hcls htb hend hsp hctor hd hl
+
+/-- **C18.g** `DistinctRows` holds of EVERY generated declension table of rules-en.json and rules-fr.json in its
+    part-of-speech class (`classOf`: `n…` nouns and French adjectives, `a…` English adjectives, `b…` English
+    adverbs) for every standard constructor state (`stdCtors`: French nouns of gender `x` or of a gender in which
+    every form of the table exists; English nouns of every lexicon gender, countable / uncountable / both;
+    adjectives and adverbs with the defaults) — with exactly the four French exceptions `distinctExceptionsFr`.
+    (The `d…`/`pn…` tables belong to determiners and pronouns: closed classes, enumerated completely by the
+    correspondence check.) -/
+def distinct_rows_tbl : Prop :=
+  distinctFailures .en Gen.DeclEn.tables = [] ∧
+  (distinctFailures .fr Gen.DeclFr.tables).map (fun x => (x.1, x.2.1, x.2.2.lexG)) = distinctExceptionsFr
+
+set_option maxRecDepth 100000 in
+theorem distinct_rows_tbl_holds : distinct_rows_tbl := by
+  unfold distinct_rows_tbl
+  decide +kernel
+
+/-- what the computed failure list means: `DistinctRows` for every table of the class and every standard state
+    that is not in the list -/
+theorem distinct_of_failures (lang : Decl.Lang) (rules : Decl.Rules) :
+    ∀ p ∈ rules, ∀ pos ∈ [Decl.Pos.N, .A, .Adv], classOf lang pos p.1 = true → ∀ c ∈ stdCtors lang pos p.1 p.2,
+      (p.1, pos, c) ∉ distinctFailures lang rules → DistinctRows lang pos p.1 p.2 c = true := by
+  intro p hp pos hpos hcls c hc hnot
+  cases hdr : DistinctRows lang pos p.1 p.2 c with
+  | true => rfl
+  | false =>
+    exfalso
+    apply hnot
+    unfold distinctFailures
+    refine List.mem_flatMap.mpr ⟨p, hp, List.mem_flatMap.mpr ⟨pos, hpos, ?_⟩⟩
+    simp only [hcls, if_true]
+    exact List.mem_filterMap.mpr ⟨c, hc, by simp [hdr]⟩
+
+def distinct_rows_all : Prop :=
+  (∀ p ∈ Gen.DeclEn.tables, ∀ pos ∈ [Decl.Pos.N, .A, .Adv], classOf .en pos p.1 = true →
+    ∀ c ∈ stdCtors .en pos p.1 p.2, DistinctRows .en pos p.1 p.2 c = true) ∧
+  (∀ p ∈ Gen.DeclFr.tables, ∀ pos ∈ [Decl.Pos.N, .A, .Adv], classOf .fr pos p.1 = true →
+    ∀ c ∈ stdCtors .fr pos p.1 p.2, (p.1, pos, c.lexG) ∉ distinctExceptionsFr →
+    DistinctRows .fr pos p.1 p.2 c = true)
+
+theorem distinct_rows_all_holds : distinct_rows_all := by
+  refine ⟨?_, ?_⟩
+  · intro p hp pos hpos hcls c hc
+    exact distinct_of_failures .en _ p hp pos hpos hcls c hc (by rw [distinct_rows_tbl_holds.1]; exact List.not_mem_nil)
+  · intro p hp pos hpos hcls c hc hex
+    refine distinct_of_failures .fr _ p hp pos hpos hcls c hc ?_
+    intro hmem
+    apply hex
+    rw [← distinct_rows_tbl_holds.2]
+    exact List.mem_map.mpr ⟨(p.1, pos, c), hmem, rfl⟩
+
+/-! ## declension: the closed classes on the shipped tables -/
+
+/-- **C18.i** determiners and pronouns: for EVERY `d…` / `pn…` table of rules-en.json and rules-fr.json, the word whose
+    lemma is the table's own ending (`the`, `my`, `me`, `le`, `mon`, `moi`, `on`, `mien`, … — the closed-class words
+    are the endings of their tables; this includes `moi`/`me`, for which `genExp` and `Terminal.decline` have special
+    rules) with an entry that says only `tab`: every (form, expression) pair of `expandDeclension` realizes (C02
+    model) to exactly that form, without a warning.  (Entries with `pe`/`g`/`n` of their own — 8 French pronouns,
+    the English numeral determiners — are covered by the enumeration of the correspondence check only.) -/
+def closed_class_tbl : Prop := closedBadAll .en = [] ∧ closedBadAll .fr = []
+
+set_option maxRecDepth 100000 in
+theorem closed_class_tbl_holds : closed_class_tbl := by
+  unfold closed_class_tbl
+  decide +kernel
+
+/-! ## declension: completeness -/
+
+/-- **C18.h** every form of the entry's declension table (`stem ++ val` of every row) is listed for the entry —
+    except, for an English noun that the lexicon marks uncountable (`cnt == "no"`), a form carried by a plural row
+    (the realizer refuses the plural of an uncountable noun: `check_countable`).  For every table, every part of
+    speech, every entry. -/
+def expandDecl_complete : Prop :=
+  ∀ (lang : Decl.Lang) (rules : Decl.Rules) (lemma pos name : Str) (tb : Decl.Table) (entry : Decl.PosEntry)
+    (l : List Pair),
+    Pyrealb.lookup name rules = some tb → Pyrealb.endsWith lemma tb.ending = true →
+    expandDeclension lang rules lemma pos (.str name) entry = .ok l →
+    ∀ d ∈ tb.rows,
+      ((lang = .en ∧ pos = "N".toList ∧ Pyrealb.lookup "cnt".toList entry = some (Decl.LV.str "no".toList)) →
+        ∀ d' ∈ tb.rows, d'.val = d.val → d'.get .n ≠ some (fvStr "p")) →
+      ∃ e, (Pyrealb.dropRight lemma tb.ending.length ++ d.val, e) ∈ l
+
+theorem expandDecl_complete_holds : expandDecl_complete := by
+  intro lang rules lemma pos name tb entry l htb hend hl d hd hx
+  unfold expandDeclension at hl
+  simp only [htb, hend, if_true] at hl
+  refine declLoop_complete tb.rows [] l hl d hd (by simp) ?_
+  intro d' hd' hv hnone
+  obtain ⟨h1, h2, h3, h4⟩ := genExp_none hnone
+  exact hx ⟨h1, h2, h4⟩ d' hd' hv h3
+
 /-! ### non-vacuity: the hypotheses are satisfiable by concrete, non-trivial instances -/
 
 def eatV : Conj.Verb := { lemma := "eat".toList, tab := "v70".toList }
-def genEnv (lang : Decl.Lang) : Env :=
-  { lang := lang
-    conj := match lang with | .en => Gen.ConjEn.tables | .fr => Gen.ConjFr.tables
-    decl := match lang with | .en => Gen.DeclEn.tables | .fr => Gen.DeclFr.tables
-    en := { will := Gen.ConjEn.will, have_ := Gen.ConjEn.have_ }
-    fr := { avoir := Gen.ConjFr.avoir, etre := Gen.ConjFr.etre, reflPro := ConjFr.reflProFr, tonicPro := ConjFr.tonicProFr } }
-
 set_option maxRecDepth 100000 in
 example : VerbOK wfConjEn Gen.ConjEn.tables eatV Gen.ConjEn.t_v70 :=
   ⟨by decide +kernel, by decide +kernel, by decide +kernel, by decide +kernel⟩
@@ -226,5 +333,31 @@ set_option maxRecDepth 100000 in
 example : realizeExp (genEnv .fr) [] (some enfuirV)
     { pos := "V".toList, lemma := "enfuir".toList, opts := [("t".toList, .str "i".toList), ("pe".toList, .int 1)] }
     = .ok ("m'enfuyais".toList, 0) := by decide +kernel
+
+-- the hypotheses of `expandDecl_sound` on a real entry: French `cheval` (N, gender m, table n5: -al / -aux)
+def chevalEntry : Decl.PosEntry := [("g".toList, .str "m".toList), ("tab".toList, .str "n5".toList)]
+def chevalLex : Decl.Lex := [("cheval".toList, [("N".toList, chevalEntry)])]
+def chevalCtor : Ctor := { g := .str "m".toList, n := .str "s".toList, lexG := some (.str "m".toList) }
+set_option maxRecDepth 100000 in
+example : ctorOK Gen.DeclFr.tables chevalLex .fr .N "cheval".toList "n5".toList "chev".toList chevalEntry chevalCtor = true
+    ∧ DistinctRows .fr .N "n5".toList Gen.DeclFr.t_n5 chevalCtor = true
+    ∧ chevalCtor ∈ stdCtors .fr .N "n5".toList Gen.DeclFr.t_n5 := by decide +kernel
+-- test (not a property theorem): its expansion lists `chevaux` as N("cheval").n("p"), which the model realizes so
+set_option maxRecDepth 100000 in
+example : expandDeclension .fr Gen.DeclFr.tables "cheval".toList "N".toList (.str "n5".toList) chevalEntry
+    = .ok [("cheval".toList, { pos := "N".toList, lemma := "cheval".toList }),
+           ("chevaux".toList, { pos := "N".toList, lemma := "cheval".toList, opts := [("n".toList, .str "p".toList)] })] := by
+  decide +kernel
+set_option maxRecDepth 100000 in
+example : realizeExp (genEnv .fr) chevalLex none
+    { pos := "N".toList, lemma := "cheval".toList, opts := [("n".toList, .str "p".toList)] }
+    = .ok ("chevaux".toList, 0) := by decide +kernel
+-- an English adjective with synthetic comparison (`good`, table a15: better / best)
+def goodLex : Decl.Lex := [("good".toList, [("A".toList, [("tab".toList, .str "a15".toList)])])]
+set_option maxRecDepth 100000 in
+example : ctorOK Gen.DeclEn.tables goodLex .en .A "good".toList "a15".toList [] [("tab".toList, .str "a15".toList)]
+      { g := .str "n".toList, n := .str "s".toList } = true
+    ∧ DistinctRows .en .A "a15".toList Gen.DeclEn.t_a15 { g := .str "n".toList, n := .str "s".toList } = true := by
+  decide +kernel
 
 end Pyrealb.C18
